@@ -43,6 +43,11 @@ func newMEnv(seed int64, own crypto.PubKey) *mEnv {
 		e.contacts[c] = vDetKey(seed, "acct/"+c).GetPublic()
 	}
 	e.contacts["SELF"] = own
+	// "O": 32 bytes that are accepted as a contact key (only the length is checked) and are no curve point, so no
+	// contact group can be derived for it; the lifecycle of such a contact is the same as any other's
+	if oc, err := crypto.UnmarshalEd25519PublicKey(c19OffCurveKey(0)); err == nil {
+		e.contacts["O"] = oc
+	}
 	e.g1 = vDetGroup(seed, "G1")
 	e.g1pk, _ = e.g1.GetPubKey()
 	return e
